@@ -11,6 +11,7 @@ OptSyncOnly == {[sync |-> TRUE, keep |-> FALSE]}
 Keys1 == <<"k1">>
 Keys2 == <<"k1", "k2">>
 LaneV == {<<"*", "i0">>}
+LaneNone == {}
 LaneM0 == {}
 LaneM1 == {<<"k1", "i1">>}
 LaneM2 == {<<"k1", "i1">>, <<"k2", "i2">>}
